@@ -176,6 +176,7 @@ func c02CycleBoth(c *c02CycleCase) (gaugeFail, counterFail string) {
 	}
 	incs := int64(0)
 	objs := map[tally.Scope]*st{} // keeps every scope object referenced: identities are not reused
+	var retired []*st
 	var cur tally.Scope
 	next := 500.0
 	var hist []string
@@ -190,7 +191,12 @@ func c02CycleBoth(c *c02CycleCase) (gaugeFail, counterFail string) {
 				cur = root.Tagged(map[string]string{sp: "1"})
 				hist = append(hist, fmt.Sprintf("Tagged{%q:1}", sp))
 			}
-			if objs[cur] == nil {
+			if old := objs[cur]; old == nil {
+				objs[cur] = &st{gauge: cur.Gauge("g"), ctr: cur.Counter("c")}
+			} else if old.closed {
+				// the API handed the closed object out again: whatever it is, it is the scope the
+				// caller now has, so what is recorded through it from here on must be delivered
+				retired = append(retired, old)
 				objs[cur] = &st{gauge: cur.Gauge("g"), ctr: cur.Counter("c")}
 			}
 		case "update":
@@ -224,7 +230,11 @@ func c02CycleBoth(c *c02CycleCase) (gaugeFail, counterFail string) {
 			delivered[v] = true
 		}
 	}
+	all := append([]*st(nil), retired...)
 	for _, s := range objs {
+		all = append(all, s)
+	}
+	for _, s := range all {
 		if s.has && !delivered[s.pending] {
 			gaugeFail = fmt.Sprintf("history: %s; final pass. The gauge updated to %v (its last update before its scope was closed / before the end) was never delivered with that value; deliveries: %v",
 				strings.Join(hist, "; "), s.pending, c02Delivered(log))
